@@ -167,6 +167,7 @@ func (c *recClient) Execute(ctx context.Context, req *federation.QueryRequest) (
 type syncer struct {
 	clients  map[string]federation.ExecutorClient
 	selector federation.ServiceSelector
+	last     *federation.SchemaWithFederationInfo
 }
 
 func (s *syncer) FetchPlannerAndSchema(ctx context.Context) (*federation.Planner, *graphql.Schema, error) {
@@ -208,6 +209,7 @@ func (s *syncer) FetchPlannerAndSchema(ctx context.Context) (*federation.Planner
 	if err != nil {
 		return nil, nil, err
 	}
+	s.last = types
 	return p, introspection.BareIntrospectionSchema(types.Schema), nil
 }
 
@@ -248,6 +250,7 @@ type gateway struct {
 	mu      sync.Mutex
 	log     []subRequest
 	sel     federation.ServiceSelector
+	sync    *syncer
 }
 
 func selectorOf(m map[string]string) federation.ServiceSelector {
@@ -286,8 +289,9 @@ func buildGateway(c *Case, w *fedgen.World) (g *gateway, err error) {
 	for k, v := range g.clients {
 		execs[k] = v
 	}
+	g.sync = &syncer{clients: g.clients, selector: g.sel}
 	g.exec, err = federation.NewExecutor(ctx, execs, &federation.SchemaSyncerConfig{
-		SchemaSyncer:              &syncer{clients: g.clients, selector: g.sel},
+		SchemaSyncer:              g.sync,
 		SchemaSyncIntervalSeconds: func(context.Context) int64 { return 3600 },
 	})
 	if err != nil {
